@@ -6,6 +6,7 @@ EXPLAINED = ('the code notifies registered sync waiters one after the other insi
              'in one step: with two or more live waiters on one queue a waiter can be seen to react between two notifications')
 
 def run(cfg, tier, seed, V, RUNNER):
+    if cfg.get('kind') == 'pipein': return run_pipein(cfg, tier, seed, V, RUNNER)
     drv = os.path.join(V, 'driver')
     rc = subprocess.run(['sh', os.path.join(drv, 'build.sh')], stdout=subprocess.PIPE, stderr=subprocess.STDOUT, timeout=900)
     out = {'traces': 0, 'steps': 0, 'events': 0, 'skipped': 0, 'explained': 0, 'disagreements': [], 'stutters': 0}
@@ -45,4 +46,39 @@ def run(cfg, tier, seed, V, RUNNER):
     keep = set(d.get('log') for d in out['disagreements'])
     for f in glob.glob(os.path.join(logroot, '*', '*.log')):
         if f not in keep: os.remove(f)
+    return out
+
+
+def run_pipein(cfg, tier, seed, V, RUNNER):
+    """pipe_in layer: logs of the real crate replayed on the extracted PipeIn model (driver/pipein/replay_pipein.ml)"""
+    drv = os.path.join(V, 'driver', 'pipein')
+    rc = subprocess.run(['sh', os.path.join(drv, 'build.sh')], stdout=subprocess.PIPE, stderr=subprocess.STDOUT, timeout=900)
+    out = {'traces': 0, 'steps': 0, 'events': 0, 'skipped': 0, 'explained': 0, 'disagreements': [], 'stutters': 0}
+    replay = os.path.join(drv, '_build', 'replay_pipein')
+    if rc.returncode != 0 or not os.path.exists(replay):
+        out['disagreements'].append({'name': 'pipein-driver-build', 'detail': 'extraction or driver build failed: ' + rc.stdout.decode('utf-8', 'replace')[-600:]})
+        return out
+    logroot = os.path.join(V, 'out', 'corrlogs_pipein')
+    shutil.rmtree(logroot, ignore_errors=True)
+    for pi, pr in enumerate(cfg['profiles']):
+        count, scheds = pr[tier]
+        d = os.path.join(logroot, '%d' % pi)
+        cmd = [RUNNER, 'run', '--seed', str(seed + 23), '--scheds', str(scheds), '--logdir', d, '--no-touch-yield', '--max-steps', '30000']
+        if pr['name'].startswith('progs:'): cmd += ['--progs', os.path.join(V, 'corpus', pr['name'][6:])]
+        else: cmd += ['--profile', pr['name'], '--count', str(count)]
+        subprocess.run(cmd, stdout=subprocess.DEVNULL, stderr=subprocess.DEVNULL, timeout=1200)
+        logs = sorted(glob.glob(os.path.join(d, '*.log')))
+        for i in range(0, len(logs), 400):
+            p = subprocess.run([replay] + logs[i:i + 400], stdout=subprocess.PIPE, stderr=subprocess.STDOUT, timeout=1200)
+            for l in p.stdout.decode('utf-8', 'replace').split('\n'):
+                f = l.split('\t')
+                if f[0] == 'SUMMARY':
+                    kv = dict(x.split('=') for x in f[1:] if '=' in x)
+                    out['traces'] += int(kv.get('ok', 0)); out['steps'] += int(kv.get('model_steps', 0)); out['events'] += int(kv.get('events', 0)); out['skipped'] += int(kv.get('skipped', 0))
+                elif f[0] == 'DIVERGE' and len(f) >= 4:
+                    out['disagreements'].append({'name': 'pipein-replay', 'detail': 'program %s: %s (log %s)' % (f[2], f[3], f[1]), 'program': f[2], 'log': f[1]})
+    keep = set(d.get('log') for d in out['disagreements'])
+    for f in glob.glob(os.path.join(logroot, '*', '*.log')):
+        if f not in keep: os.remove(f)
+    out['explained_reason'] = 'logs in which the harness stream yields an item pushed after the stream was closed are skipped (the model\'s input, like a real Stream, has no item after its end)'
     return out
